@@ -390,6 +390,7 @@ func TestC46DumpRestore(t *testing.T) {
 		// --- source shard
 		src := openShard(filepath.Join(dir, "src"), srcWC)
 		want := map[oid.Address][]byte{}
+		refusedSrc := map[oid.Address][]byte{}
 		for i, s := range w.specs {
 			o := build(s)
 			if err := src.Put(o, nil); err != nil {
@@ -397,7 +398,10 @@ func TestC46DumpRestore(t *testing.T) {
 					src.Close()
 					fatalEnv("put %s: %v", s, err)
 				}
-				continue // refused association (e.g. target state): not part of the source contents
+				// refused association (e.g. target state): not part of the source contents; Shard.Put rolls the
+				// blob back, but a concurrent write-cache flush may leave it behind (not this property's business)
+				refusedSrc[o.Address()] = o.Marshal()
+				continue
 			}
 			want[o.Address()] = o.Marshal()
 			if srcWC && srcFlush && i == len(w.specs)/2 {
@@ -438,6 +442,11 @@ func TestC46DumpRestore(t *testing.T) {
 				rec.Label("dump-duplicate-record")
 			}
 			seen[a] = true
+			if rb, ok := refusedSrc[a]; ok && bytes.Equal(rb, r.data) {
+				rec.Label("dump-holds-refused-object")
+				delete(seen, a)
+				continue
+			}
 			if wb, ok := want[a]; !ok {
 				t.Fatalf("dump holds object %s that was never stored", a)
 			} else if !bytes.Equal(wb, r.data) {
@@ -491,6 +500,7 @@ func TestC46DumpRestore(t *testing.T) {
 		}
 		wantOK, wantFailed, wantErr := 0, 0, false
 		expectPhys := map[oid.Address][]byte{}
+		optionalPhys := map[oid.Address][]byte{}
 		tombstoned := map[oid.Address]bool{}
 		var addrs []oid.Address
 		for i, e := range exps {
@@ -506,7 +516,12 @@ func TestC46DumpRestore(t *testing.T) {
 			a := e.obj.Address()
 			addrs = append(addrs, a)
 			if tombstoned[a] {
-				continue // refused as already removed, documented as ignored
+				// refused as already removed, documented as ignored. Shard.Put rolls the stored bytes back; a
+				// write-cache flush racing with the rollback may leave them behind, which is tolerated here
+				if _, ok := expectPhys[a]; !ok {
+					optionalPhys[a] = recs2[i].data
+				}
+				continue
 			}
 			expectPhys[a] = recs2[i].data
 			if e.obj.Type() == object.TypeTombstone {
@@ -522,8 +537,15 @@ func TestC46DumpRestore(t *testing.T) {
 				return fmt.Sprintf("%s: counts (ok=%d, failed=%d), expected (%d, %d) for %d records of which %d undecodable, ignoreErrors=%v",
 					name, r.ok, r.failed, wantOK, wantFailed, len(recs2), nCorrupt, ignoreErrors)
 			}
-			if len(r.phys) != len(expectPhys) {
-				return fmt.Sprintf("%s: %d objects stored, expected %d", name, len(r.phys), len(expectPhys))
+			for a, got := range r.phys {
+				if _, ok := expectPhys[a]; ok {
+					continue
+				}
+				if ob, ok := optionalPhys[a]; ok && bytes.Equal(ob, got) {
+					rec.Label("refused-object-left-behind")
+					continue
+				}
+				return fmt.Sprintf("%s: object %s (%d bytes) is stored but must not be", name, a, len(got))
 			}
 			for a, b := range expectPhys {
 				got, ok := r.phys[a]
@@ -548,6 +570,8 @@ func TestC46DumpRestore(t *testing.T) {
 		// --- restore with full reads
 		full := restore(filepath.Join(dir, "full"), dstWC, bytes.NewReader(dump2), ignoreErrors, addrs)
 		if msg := check("full-read restore", full); msg != "" {
+			rec.Set("failure_message", msg)
+			rec.Flush()
 			t.Fatalf("%s\n  world: %v", msg, w.specs)
 		}
 
@@ -590,11 +614,17 @@ func TestC46DumpRestore(t *testing.T) {
 
 		msg := check("short-read restore", chunked)
 		if msg == "" {
+			for a := range optionalPhys {
+				delete(full.phys, a)
+				delete(chunked.phys, a)
+			}
 			if d := diffResults(full, chunked); d != "" {
 				msg = "full-read and short-read restores differ: " + d
 			}
 		}
 		if msg != "" {
+			rec.Set("failure_message", msg)
+			rec.Flush()
 			t.Fatalf("%s\n  reader: %+v\n  dump: %d bytes, %d records (sizes %v)\n  full-read restore: %s\n  short-read restore: %s\n  world: %v",
 				msg, sc, len(dump2), len(recs2), recSizes(recs2), full.summary(), chunked.summary(), w.specs)
 		}
